@@ -289,6 +289,7 @@ static void examine_braces()
             || (  pc->GetParentType() == CT_FOR
                && options::mod_full_brace_for() == IARF_REMOVE)
             || (  pc->GetParentType() == CT_USING_STMT
+               && !language_is_set(lang_flag_e::LANG_JAVA)     // a Java try-with-resources needs its block
                && options::mod_full_brace_using() == IARF_REMOVE)
             || (  pc->GetParentType() == CT_WHILE
                && options::mod_full_brace_while() == IARF_REMOVE)))
